@@ -17,7 +17,7 @@ import (
 
 func init() {
 	register(&Prop{ID: "C20", Run: runC20, MinNontrivial: 500,
-		Rule:        "cases = (a) conforming SSO responses in every C08 layout (prefix styles, attribute order, quotes, comments, CDATA/char-refs, XML declaration variants, DEFLATE levels, value classes) and conforming LogoutResponses from the C10 generator; (b) attacker-shaped roots made acceptable by a trusted-signed assertion inside an unsigned Response or by the skip configuration: duplicated and prefixed root attributes, attribute values with references/whitespace, several Issuer children, Issuer in a foreign namespace or nested, comments/CDATA/references in Issuer, BOM, DOCTYPE, leading whitespace/comments/PIs, XML declarations incl. declared non-UTF-8 encodings; oracle: full validation accepts => the unverified decoder succeeds and reports the same ID, InResponseTo, Destination, Version and Issuer; both succeed => equal; non-trivial = full validation accepted; distinct by hash of the document; present-but-empty root Issuers; transport re-spellings of the encoded message (folded, trailing white space, + as space, URL-safe alphabet, dropped padding); extra EncryptedAssertions whose plaintext is an Issuer / Status element; root-signed responses of 3-12 MiB presented uncompressed",
+		Rule:        "cases = (a) conforming SSO responses in every C08 layout (prefix styles, attribute order, quotes, comments, CDATA/char-refs, XML declaration variants, DEFLATE levels, value classes) and conforming LogoutResponses from the C10 generator; (b) attacker-shaped roots made acceptable by a trusted-signed assertion inside an unsigned Response or by the skip configuration: duplicated and prefixed root attributes, attribute values with references/whitespace, several Issuer children, Issuer in a foreign namespace or nested, comments/CDATA/references in Issuer, BOM, DOCTYPE, leading whitespace/comments/PIs, XML declarations incl. declared non-UTF-8 encodings; oracle: full validation accepts => the unverified decoder succeeds and reports the same ID, InResponseTo, Destination, Version and Issuer; both succeed => equal; non-trivial = full validation accepted; distinct by hash of the document; present-but-empty root Issuers; transport re-spellings of the encoded message (folded, trailing white space, + as space, URL-safe alphabet, dropped padding); extra EncryptedAssertions whose plaintext is an Issuer / Status element; root-signed responses of 3-12 MiB presented uncompressed; unknown root children with HTML void-element names; class deflate-xml-polyglot (stored-block streams readable as XML, F12)",
 		Assumptions: []string{"values containing \"]]>\" inside XML attributes are skipped (finding K2: such responses are rejected by validation)"}})
 }
 
